@@ -102,7 +102,8 @@ def gen_case(rng, tier):
             if grid and len(grid) == len(axes):
                 grid = None if False else grid
     two = rng.random() < 0.25
-    return {"shape": list(shape), "kind": kind, "grid": grid, "chunks": chunks, "ops": ops, "two_consumers": two, "dtype": rng.choice(["i8", "f8"])}
+    lazy = kind in ("lock", "store", "store_grid", "wrapped") and rng.random() < (0.5 if kind == "lock" else 0.2)
+    return {"shape": list(shape), "kind": kind, "grid": grid, "chunks": chunks, "ops": ops, "two_consumers": two, "dtype": rng.choice(["i8", "f8"]), "lazy": lazy}
 
 
 def _uniform(n, c):
@@ -132,8 +133,10 @@ def build_source(case):
         if kind == "lock":
             lock = threading.Lock()
             kw["lock"] = lock
-        store = rec.RecStore(data, chunks=grid if kind != "store_shards" else None, shards=grid if kind == "store_shards" else None, lock=lock, allow_fancy=(kind != "nofancy"))
+        store = rec.RecStore(data, chunks=grid if kind != "store_shards" else None, shards=grid if kind == "store_shards" else None, lock=lock, allow_fancy=(kind != "nofancy"), lazy=bool(case.get("lazy")))
         src = store
+        if case.get("lazy"):
+            kw["meta"] = np.empty((0,) * len(shape), dtype=data.dtype)
         if kind == "wrapped":
             src = rec.Wrapper(store, "array")
         elif kind == "wrapped2":
@@ -202,6 +205,8 @@ def judge(case, ctx):
             if ev.problem:
                 problems.append(("out_of_bounds_read" if ev.kind == "read" else "source_write", f"{ev.kind} request {rec.enc(ev.index)} on source of shape {store.shape}: {ev.problem}", f"{ev.kind}_request:{ev.problem.split(':')[1].split()[0] if ':' in ev.problem else 'x'}"))
                 break
+        if case.get("lazy"):
+            ctx.count("lazy_handle_reads", len(reads))
         if case["kind"] == "lock":
             # empty selections are metadata probes (meta inference), not data reads
             unlocked = [ev for ev in reads if ev.locked is False and ev.size > 0]
